@@ -19,7 +19,7 @@ Theorem C08_right_function : forall ops d,
       exists h s, spec_cfg n ops = Some h /\ spec_started n ops = Some s
                   /\ h_sub h = d_sub d /\ h_subtopic h = d_topic d /\ tr = dispatch h s d)
   /\ NoDup (map fst (deliver (exec rinit ops) d))
-  /\ (forall h s, fn_calls (dispatch h s d) = [(h_fn h, overlay (d_ctx d) h)]).
+  /\ (forall h s, fn_calls (dispatch h s d) = [(h_fn h, ctx_of h)]).
 Proof. exact c08_right_function. Qed.
 
 (** All Publish calls of one copy: exactly one, on the handler's own publisher object and publish
@@ -48,33 +48,24 @@ Theorem C08_settles_as_C02 : forall h s d,
   [settle_eqb (st (fst (handle (pub_kind (h_pub h)) (d_pb d) (CR PreNone (chain_outcome h s d))))) Acked].
 Proof. exact c08_settles_as_c02. Qed.
 
-(** Context values, as coded: inside the function the message context is the arriving context
-    overlaid with this handler's five values; every produced message carries the overlay of what it
-    carried before (the consumed object: the arriving context; a fresh message: nothing).  A
-    non-empty value of the handler always wins; an EMPTY one is not set, so an older value survives. *)
+(** Context values (REPAIRED addHandlerContext: all five keys always set): whatever router keys the
+    arriving message context already carries, inside the function the context reports exactly this
+    handler's name, publisher type name, subscriber type name, subscribe topic and publish topic,
+    and so does every produced message (the consumed object, fresh ones, ones appended by middlewares). *)
 Theorem C08_context_values : forall h s d,
-  fn_calls (dispatch h s d) = [(h_fn h, overlay (d_ctx d) h)]
-  /\ (forall p t outs m c, In (p, t, outs) (publish_calls (dispatch h s d)) -> In (m, c) outs ->
-        c = overlay (if N.eqb m 0 then d_ctx d else cx0) h)
-  /\ (forall c,
-        (h_name h <> 0%N -> c_handler (overlay c h) = h_name h)
-        /\ (c_pubname (overlay c h) = if N.eqb (pub_ty (h_pub h)) 0 then c_pubname c else pub_ty (h_pub h))
-        /\ (h_subty h <> 0%N -> c_subname (overlay c h) = h_subty h)
-        /\ (h_subtopic h <> 0%N -> c_subtopic (overlay c h) = h_subtopic h)
-        /\ (h_pubtopic h <> 0%N -> c_pubtopic (overlay c h) = h_pubtopic h)
-        /\ (h_name h = 0%N -> c_handler (overlay c h) = c_handler c)
-        /\ (h_subty h = 0%N -> c_subname (overlay c h) = c_subname c)
-        /\ (h_subtopic h = 0%N -> c_subtopic (overlay c h) = c_subtopic c)
-        /\ (h_pubtopic h = 0%N -> c_pubtopic (overlay c h) = c_pubtopic c)).
-Proof. exact c08_context_values. Qed.
-
-(** For a message that arrives without router keys (what every Pub/Sub that builds its own message
-    contexts delivers): exactly this handler's name, publisher type name, subscriber type name,
-    subscribe topic and publish topic — inside the function and on every produced message. *)
-Theorem C08_context_values_fresh : forall h s d, d_ctx d = cx0 ->
   fn_calls (dispatch h s d) = [(h_fn h, ctx_of h)]
   /\ (forall p t outs m c, In (p, t, outs) (publish_calls (dispatch h s d)) -> In (m, c) outs -> c = ctx_of h).
-Proof. exact c08_context_values_fresh. Qed.
+Proof. exact c08_context_values. Qed.
+
+(** PINNED addHandlerContext (keys set only for non-empty values; before the fix commit): the clause
+    fails — a handler without publisher (publish topic "") that receives an object still carrying
+    another handler's keys reports THAT handler's publish topic.  For contexts without router keys
+    both behaviours agree. *)
+Theorem C08_context_values_pinned_refuted :
+  exists c h, overlay_pinned c h <> ctx_of h /\ c_pubtopic (overlay_pinned c h) <> h_pubtopic h.
+Proof. exact c08_context_pinned_refuted. Qed.
+Theorem C08_context_pinned_agrees_when_fresh : forall h, overlay_pinned cx0 h = ctx_of h.
+Proof. exact overlay_pinned_fresh. Qed.
 
 (** The code-shaped model (loops) computes the declarative trace, and every delivery of every
     program passes the acceptor that judges implementation observations. *)
@@ -88,7 +79,8 @@ Print Assumptions C08_publish_target.
 Print Assumptions C08_no_publisher_output_nacks.
 Print Assumptions C08_settles_as_C02.
 Print Assumptions C08_context_values.
-Print Assumptions C08_context_values_fresh.
+Print Assumptions C08_context_values_pinned_refuted.
+Print Assumptions C08_context_pinned_agrees_when_fresh.
 Print Assumptions C08_dispatch_is_spec.
 Print Assumptions C08_model_accepted.
 
@@ -118,9 +110,9 @@ Example C08_witness_no_publisher :
           (DL 1 20 cx0 (Ret []) PubAccept) =
   [(12%N, [EEnter 6; EFn 3 (CX 12 ty_disabled 7 20 0); EExit 6; EPubDec 9 0 [106%N]; ESettle false])].
 Proof. reflexivity. Qed.
-(** the "not set when empty" rule is observable: a no-publisher handler (publish topic "") that
-    receives an object still carrying another handler's keys reports THAT handler's publish topic *)
-Example C08_context_empty_value_inherits :
+(** a re-delivered object that still carries handler A's keys: the no-publisher handler reports its own
+    (empty) publish topic *)
+Example C08_witness_redelivered_object :
   fn_calls (dispatch (HC 12 1 7 20 PDisabled 0 3) (ST [] [] []) (DL 1 20 (ctx_of exA) (Ret []) PubAccept))
-  = [(3%N, CX 12 ty_disabled 7 20 30)].
+  = [(3%N, CX 12 ty_disabled 7 20 0)].
 Proof. reflexivity. Qed.
